@@ -18,6 +18,8 @@ add("C10","Bounded symbolic verification: a model built with batch size N and th
     MODEL_NOTE+" Sampler stub returns a fresh symbolic tensor of the documented shape.",TECH,"DESIGN.md §3 C10")
 add("C12","Bounded symbolic verification: slice registration is executed with symbolic parameter-set sizes (all sizes at once); whole models from the shape family are checked for tiling of parameter and channel slices, suggestion lengths, auxdata layout and defaults; measurement overrides (inits, bounds, fixed, auxdata, sigmas, factors) enter as fresh symbols and are proved to appear verbatim in the suggestions, config.auxdata and the constraint terms; Workspace.data / Workspace.build -> model()/data() round trip with symbolic observations; caller specs are compared leaf-by-leaf for mutation; every permutation (length<=3) of channel/sample/modifier/parameter/observation lists yields identical layout and identical logpdf/expected_data terms.",
     MODEL_NOTE,TECH,"DESIGN.md §3 C12")
+add("C20","Bounded symbolic fault enumeration decided per fault: every single structural fault of the nine listed classes is injected at every applicable position of six well-formed base specs (values symbolic); real pyhf.Model construction must raise a pyhf exception, or - where the faulty spec still has a meaning as written - the accepted model's rates must equal, for all parameter values (solver-decided), the HistFactory formula of the spec as written; foreign exceptions, AssertionError and acceptance with dropped/mis-bound content are violations.",
+    MODEL_NOTE+" Names are concrete; duplicates are injected concretely.",TECH+"; fault injection at every position","DESIGN.md §3 C20")
 m={"version":1,"setup_cmd":"./setup.sh",
  "hooks":{"guard":"PYHF_VERIF","enable":"not needed: instrumentation is harness-side (custom tensor backend via pyhf.set_backend; module-attribute stubs)","baseline_off_cmd":BASE,"source_commits":[],"add_only":True},
  "engines":[{"name":"pyhf_smt","path":"pyhf_smt/","serves_properties":[c["property_id"] for c in checks],"kind_free_text":"symbolic tensor backend (z3 Real terms in numpy object arrays) + forking path explorer + cell-wise SMT equivalence + concrete replay"}],
